@@ -192,6 +192,8 @@ structure Env where
   atomicMan : Bool := false
   /-- VARIANT: part records are written by `writeFileAtomic` (proposed fix C12-F19b) -/
   atomicPart : Bool := false
+  /-- CONFIGURATION: `OLLAMA_NOPRUNE` is set (no start-up prune, create and pull keep replaced layers) -/
+  noPrune : Bool := false
 
 /-- `NewLayer(r, _)` with temp file number `k`; `pieces` is how the reader hands out the data -/
 def newLayer (env : Env) (k : Nat) (pieces : List Bytes) (st : Store) : Res :=
@@ -253,6 +255,12 @@ def uploads (env : Env) (k : Nat) (ups : List (Digest × Bytes)) (st : Store) : 
   | [] => ⟨[], true⟩
   | (d, body) :: rest => (upload env k d body st).andThen st (uploads env (k + 1) rest)
 
+/-- `if !envconfig.NoPrune() && oldManifest != nil { oldManifest.RemoveLayers() }` -/
+def cleanupOld (env : Env) (old : Option Man) (st : Store) : Res :=
+  match old with
+  | some m => if env.noPrune then ⟨[], true⟩ else removeLayers (m.all.map Layer.digest) st
+  | none => ⟨[], true⟩
+
 /-- `CreateHandler` with one gguf file: `NewLayerFromLayer` (fails if the blob is missing), data
 layers, config layer, `WriteManifest`, then `oldManifest.RemoveLayers()` if the old manifest was
 readable. -/
@@ -262,9 +270,7 @@ def createHandler (env : Env) (k : Nat) (n : Name) (file : Digest)
   if !present st (.blob file) then ⟨[], false⟩ else
   (newLayers env k (datas ++ [cfg]) st).andThen st fun st2 =>
     (writeManifest env (k + datas.length + 1) n (createMan env file datas cfg st2)).andThen st2 fun st3 =>
-      match old with
-      | some m => removeLayers (m.all.map Layer.digest) st3
-      | none => ⟨[], true⟩
+      cleanupOld env old st3
 
 /-- `ollama create`: the client uploads the blobs that are missing, then calls `CreateHandler` -/
 def create (env : Env) (n : Name) (ups : List (Digest × Bytes)) (file : Digest)
@@ -347,6 +353,10 @@ def deleteUnused (env : Env) (cand : List Digest) (st : Store) : Res :=
   ⟨((env.ord (cand.filter (fun d => !referenced st d))).filter (fun d => present st (.blob d))).map
       (fun d => Effect.rm (.blob d)), true⟩
 
+/-- `if !envconfig.NoPrune() && len(deleteMap) > 0 { deleteUnusedLayers(deleteMap) }` -/
+def cleanupPull (env : Env) (cand : List Digest) (st : Store) : Res :=
+  if env.noPrune then ⟨[], true⟩ else deleteUnused env cand st
+
 /-- `PullModel` of manifest `m` from an honest registry `reg` -/
 def pull (env : Env) (reg : Digest → Option Bytes) (n : Name) (m : Man) (st : Store) : Res :=
   let oldDigests := match readable st n with
@@ -357,7 +367,7 @@ def pull (env : Env) (reg : Digest → Option Bytes) (n : Name) (m : Man) (st : 
   dl.andThen st fun st1 =>
     (verify env fresh st1).andThen st1 fun st2 =>
       (writeManifest env (2 * want.length) n m).andThen st2 fun st3 =>
-        deleteUnused env (oldDigests.filter (fun d => !want.contains d)) st3
+        cleanupPull env (oldDigests.filter (fun d => !want.contains d)) st3
 
 /-! ## restart: what `Serve` does before listening -/
 
@@ -373,6 +383,9 @@ def prune (st : Store) : Store := filterKeys (keepAtPrune st) st
 
 /-- `fixBlobs; if Manifests(false) succeeds then PruneLayers; PruneDirectory` -/
 def restart (st : Store) : Store := if allReadable st then prune st else st
+
+/-- the start-up sequence under the configuration: with `OLLAMA_NOPRUNE` nothing is pruned -/
+def restartWith (env : Env) (st : Store) : Store := if env.noPrune then st else restart st
 
 /-! ## operations as one type -/
 
